@@ -351,3 +351,12 @@ func VerifStartPoolFill(s *Session, ip string) bool {
 	}
 	return false
 }
+
+// VerifHostAddrPort is the host's connect address WITH its port ("ip:port"): what a dialer that serves several
+// nodes on one IP address (port-mapped NAT, local clusters) has to route by.
+func VerifHostAddrPort(h *HostInfo) string {
+	if h == nil {
+		return "<nil>"
+	}
+	return (&net.TCPAddr{IP: h.ConnectAddress(), Port: h.Port()}).String()
+}
